@@ -6,7 +6,7 @@ from harness.runner import first_per_clause, pmap
 
 def corpus(ctx):
     rng = ctx.rng('metrics')
-    n = 120 if ctx.quick else 1500
+    n = 120 if ctx.quick else 6000
     return drive_metrics.metric_family() + [
         drive_metrics.add_metric_nodes(gen_graph.random_graph(rng, nmin=4, nmax=9, max_space=16, max_ch=3, n_inc=(0, 1)), rng)
         for _ in range(n)]
